@@ -110,9 +110,12 @@ package cluster
 //@   assumed
 //@   ensures isCopyOf(result, v)
 //@   modifies nothing
+// the adapter from the local raft report to view updates copies shard, membership index, leader and term field by field
 //@ func toShardViewList
-//@   assumed
+//@   ensures [C19.adapter] len(result) == len(input) && forall j int :: 0 <= j && j < len(input) ==> result[j].ShardID == input[j].ShardID && result[j].ConfigChangeIndex == input[j].ConfigChangeIndex && result[j].LeaderID == input[j].LeaderID && result[j].Term == input[j].Term && result[j].Replicas == input[j].Replicas
 //@   modifies nothing
+//@   loop 0 invariant -1 <= rangeindex && rangeindex < len(input) && len(result) == len(input) && fresh(result)
+//@   loop 0 invariant forall j int :: 0 <= j && j <= rangeindex ==> result[j].ShardID == input[j].ShardID && result[j].ConfigChangeIndex == input[j].ConfigChangeIndex && result[j].LeaderID == input[j].LeaderID && result[j].Term == input[j].Term && result[j].Replicas == input[j].Replicas
 //@ func json.Marshal<*cluster.clusterState>
 //@   assumed
 //@   params v
